@@ -257,8 +257,10 @@ theorem C05_compile_where (nm : Names) (s : Schema) (q : Query) (vn : Nat → St
     whereHolds (compile nm s vn q) (bindVal env (compile nm s vn q).binds) (encodeRow nm r) =
       (decide (r.ent = q.ent) && q.filters.all (filterHolds Defects.asImplemented s q.ent r) &&
         cursorHolds Defects.asImplemented q.orders q.after q.before
-          (keysOf Defects.asImplemented s q.ent q.orders r)) :=
-  whereHolds_spec env nm s vn q hfrag hent hfld henv r
+          (keysOf Defects.asImplemented s q.ent q.orders r)) := by
+  have := whereHolds_spec env nm s vn q [] [] hfrag hent hfld henv r
+  rw [List.append_nil] at this
+  exact this
 
 /-! ### the hypotheses are satisfiable by a non-trivial instance, and the printed text is the code's -/
 
